@@ -396,6 +396,21 @@ def finding_corpus():
                 {"s": "a", "y": 0x77}, None,
                 "MIN-MAX-LENGTH A_UNICODE2STRING with an odd MAX-LENGTH: a value of MAX-LENGTH - 1 bytes is written with its two-byte terminator, "
                 "which straddles the decoder's search bound orig + MAX-LENGTH, so the decoder reads MAX-LENGTH bytes and fails (DecodeError)"))
+    # forced by the proof of DComp.withByteSize_ok (W11): the encoder never checks that the content fits into BYTE-SIZE
+    mmz = D.SimpleDop(D.MinMax("A_BYTEFIELD", 0, 8, "ZERO"), "A_BYTEFIELD")
+    out.append(("byte-size-structure-content-too-long",
+                D.Composite("RQ", "request", [D.sid(), D.value("st", D.Struct([D.value("s", mmz)], bytesize=3)), D.value("y", D.u8())]),
+                {"st": {"s": bytes([1, 2, 3])}, "y": 0x77}, None,
+                "a STRUCTURE with BYTE-SIZE whose content (here a terminated MIN-MAX byte field) is longer than BYTE-SIZE is encoded without any check "
+                "(22 01 02 03 00 77), the decoder rejects the PDU ('Attempted to decode too large instance of structure')"))
+    # forced by the proof of C01_roundtrip_lengthkey (W13, hypothesis `apart`): length_keys / key_pos are keyed by SHORT-NAME for the whole PDU
+    k4 = lambda bp: D.length_key("len", D.u8(4), bitpos=bp)
+    pl = lambda: D.SimpleDop(D.ParamLen("A_BYTEFIELD", "len"), "A_BYTEFIELD")
+    out.append(("length-key-same-short-name-nested",
+                D.Composite("RQ", "request", [D.sid(0x2E), k4(4), D.value("st", D.Struct([k4(0), D.value("data", pl())])), D.value("d1", pl()), D.value("y", D.u8())]),
+                {"st": {"data": bytes([1])}, "d1": bytes([0xAA]), "y": 0x77}, None,
+                "a nested structure with a LENGTH-KEY of the same short name as a key of the enclosing request overwrites the outer key's recorded "
+                "position: 2e 00 88 01 aa 77 is produced without a warning and decodes to an outer key of 0 (expected 8)"))
     return out
 
 
